@@ -80,6 +80,7 @@ type step struct {
 	Srcs []int  `json:"srcs,omitempty"` // Evacuate
 	Ign  bool   `json:"ign,omitempty"`  // Evacuate ignoreErrors
 	FH   bool   `json:"fh,omitempty"`   // Evacuate with (counting, accepting) fault handler
+	FHE  bool   `json:"fhe,omitempty"`  // ... the fault handler returns an error instead
 }
 
 type script struct {
@@ -739,6 +740,9 @@ func (w *world) exec(sc *script, i int, out kit.M) {
 		handled := []int{}
 		if st.FH {
 			fh = func(a oid.Address, _ *object.Object) error {
+				if st.FHE {
+					return errors.New("fault handler refuses the object")
+				}
 				for j, ro := range w.objs {
 					if ro.addr == a {
 						handled = append(handled, j+1)
@@ -807,7 +811,7 @@ func echo(st step) kit.M {
 	case "Fail":
 		ev["s"], ev["fp"], ev["fg"] = st.S, st.FP, st.FG
 	case "Evacuate":
-		ev["srcs"], ev["ign"], ev["fh"] = st.Srcs, st.Ign, st.FH
+		ev["srcs"], ev["ign"], ev["fh"], ev["fhe"] = st.Srcs, st.Ign, st.FH, st.FHE
 	}
 	return ev
 }
